@@ -281,20 +281,22 @@ func runHeap(c *Ctx) {
 				repaired = false
 			}
 		}
-		_ = func() bool { return !reachesWithout(r.st, pop, func(in ssa.Instruction) bool {
-			if call, ok := in.(ssa.CallInstruction); ok {
-				n := core.CalleeName(call.Common())
-				if n == heapInit {
-					return true
-				}
-				if n == heapFix || n == heapRem {
-					if fr, ok := core.AsFieldLoad(call.Common().Args[1]); ok && fr.Field == indexField && core.Path(fr.Base) == vPath {
+		_ = func() bool {
+			return !reachesWithout(r.st, pop, func(in ssa.Instruction) bool {
+				if call, ok := in.(ssa.CallInstruction); ok {
+					n := core.CalleeName(call.Common())
+					if n == heapInit {
 						return true
 					}
+					if n == heapFix || n == heapRem {
+						if fr, ok := core.AsFieldLoad(call.Common().Args[1]); ok && fr.Field == indexField && core.Path(fr.Base) == vPath {
+							return true
+						}
+					}
 				}
-			}
-			return false
-		}) }
+				return false
+			})
+		}
 		prevOK := false
 		for _, in := range r.st.Block().Instrs {
 			if st, ok := in.(*ssa.Store); ok && st != r.st {
@@ -524,28 +526,40 @@ func runHeap(c *Ctx) {
 	c.R.Add("HEAP-PATH", "walk|collect", core.FuncName(ep), p.Pos(ep.Pos()), appendOK, "every visited vertex is appended to the path", fmt.Sprintf("ok=%v", appendOK))
 	// reversal: two element stores with converging phi indices guarded by left<right
 	revOK := false
-	core.Instrs(ep, func(in ssa.Instruction) {
-		st, ok := in.(*ssa.Store)
-		if !ok {
-			return
+	revScope := []*ssa.Function{ep}
+	for _, h := range p.StaticHelpers(ep) {
+		// a reversal helper: takes the collected slice and nothing else
+		if len(h.Params) == 1 && types.Identical(h.Params[0].Type(), ep.Signature.Results().At(0).Type()) && len(p.Callers(h)) > 0 {
+			revScope = append(revScope, h)
 		}
-		ia, ok := st.Addr.(*ssa.IndexAddr)
-		if !ok {
-			return
-		}
-		if _, isPhi := ia.Index.(*ssa.Phi); !isPhi {
-			return
-		}
-		for _, l := range core.Lits(core.Guards(st.Block())) {
-			if l.Kind == "cmp" && l.Pol && (l.Op == token.LSS || l.Op == token.GTR) {
-				_, px := l.X.(*ssa.Phi)
-				_, py := l.Y.(*ssa.Phi)
-				if px && py {
-					revOK = true
+	}
+	for _, rf := range revScope {
+		core.Instrs(rf, func(in ssa.Instruction) {
+			st, ok := in.(*ssa.Store)
+			if !ok {
+				return
+			}
+			ia, ok := st.Addr.(*ssa.IndexAddr)
+			if !ok {
+				return
+			}
+			if rf != ep && core.Root(ia.X) != ssa.Value(rf.Params[0]) {
+				return
+			}
+			if _, isPhi := ia.Index.(*ssa.Phi); !isPhi {
+				return
+			}
+			for _, l := range core.Lits(core.Guards(st.Block())) {
+				if l.Kind == "cmp" && l.Pol && (l.Op == token.LSS || l.Op == token.GTR) {
+					_, px := l.X.(*ssa.Phi)
+					_, py := l.Y.(*ssa.Phi)
+					if px && py {
+						revOK = true
+					}
 				}
 			}
-		}
-	})
+		})
+	}
 	c.R.Add("HEAP-PATH", "reverse", core.FuncName(ep), p.Pos(ep.Pos()), revOK, "the collected walk is reversed in place with converging indices", fmt.Sprintf("ok=%v", revOK))
 }
 
